@@ -122,3 +122,41 @@ where
         len: c.len() == m.n && c.is_empty() == (m.n == 0),
     }
 }
+
+/// no key occurs in both lists
+pub fn disjoint(a: &ML, b: &ML) -> bool {
+    let mut ok = true;
+    let mut i = 0;
+    while i < MAXN {
+        if i < a.n && b.has(a.k[i]) {
+            ok = false;
+        }
+        i += 1;
+    }
+    ok
+}
+
+/// no key occurs twice in the list
+pub fn nodup(a: &ML) -> bool {
+    let mut ok = true;
+    let mut i = 0;
+    while i < MAXN {
+        let mut j = 0;
+        while j < MAXN {
+            if i < j && j < a.n && a.k[i] == a.k[j] {
+                ok = false;
+            }
+            j += 1;
+        }
+        i += 1;
+    }
+    ok
+}
+
+pub fn kvm_match(r: &Option<(&u8, &mut u8)>, m: Option<(u8, u8)>) -> bool {
+    match (r, m) {
+        (None, None) => true,
+        (Some((a, b)), Some((x, y))) => **a == x && **b == y,
+        _ => false,
+    }
+}
